@@ -297,6 +297,21 @@ theorem tok_eq_hash {a b : TTk} (h : tokEq a b = true) : a.hash = b.hash := by
   have := beq_iff_eq.mp h
   simp [TTk.hash, this]
 
+/-- **Owner swap.**  Two repeated fields that own the same NUMBER of entries but a different entry at one position
+(document A gave up comment `i` of a field and kept comment `j`, document B the other way round - all tokens of both
+documents being the same) are unequal as soon as the two entries at that position are: equality of a repeated field
+walks its entries, it is not a count.  With `neq_lift` the inequality reaches every enclosing model. -/
+theorem neq_owner_swap {sa sb : List TTk} {g ph g' ph' : Nat} {pre post pre' post' : List Tree} {x y : Tree}
+    (hlen : pre.length = pre'.length) (hxy : treeEq sa sb x y = false) :
+    treeEq sa sb (.rep g ph (pre ++ x :: post)) (.rep g' ph' (pre' ++ y :: post')) = false := by
+  cases hT : treeEq sa sb (.rep g ph (pre ++ x :: post)) (.rep g' ph' (pre' ++ y :: post')) with
+  | false => rfl
+  | true =>
+    simp only [treeEq, Bool.and_eq_true] at hT
+    have := treeEqL_split hlen hT.2
+    rw [hxy] at this
+    cases this
+
 /-- Token equality ignores identity and the `claimed` flag, and nothing else. -/
 theorem tokEq_iff (a b : TTk) : tokEq a b = true ↔ a.kind = b.kind ∧ a.text = b.text := by
   simp [tokEq, TTk.kt]
